@@ -78,7 +78,7 @@ def tla_constants():
         't_Empty == {}',
     ])
     cfg = ['NC = %d' % len(IDS), 'Chem <- t_Chem', 'Lib <- t_Lib', 'Tags <- t_Empty', 'ModelFeeds <- t_Empty', 'XVals <- t_Empty',
-           'QVals <- t_Empty', 'DVals <- t_Empty', 'Ops <- t_Empty']
+           'QVals <- t_Empty', 'DVals <- t_Empty', 'HfChems <- t_Empty', 'HfVals <- t_Empty', 'Ops <- t_Empty']
     return defs, cfg
 
 
@@ -99,6 +99,10 @@ def item_record(i, r, X, tag):
 class World:
     def __init__(self):
         self.th = thermo()
+        # the package is shared between worlds: restore the heats of formation a previous history may have changed
+        for ch, p in zip(self.th.chemicals, CHEM):
+            ch.Hf = float(p['Hf'])
+        self.th.chemicals.refresh_constants()
         self.kind = 'g'
         self.stream = tmo.Stream(None, thermo=self.th, phase='g', T=T_REF)
         self.rs = None
@@ -146,7 +150,9 @@ class World:
     def project(self):
         s = self.stream
         kind = ''.join(s.phases) if isinstance(s, tmo.MultiStream) else s.phase
-        return dict(kind=kind, m=self._m(), d3=fx3(s.T - T_REF), rs=self._rs())
+        # heats of formation as the compiled package holds them (what Stream.Hf and Reaction.dH read)
+        hf = [int(round(float(x))) for x in self.th.chemicals.Hf]
+        return dict(kind=kind, m=self._m(), d3=fx3(s.T - T_REF), rs=self._rs(), hf=hf)
 
     # ---- operations ----------------------------------------------------------------------------------
     def _mkrxn(self, it, basis):
@@ -198,6 +204,10 @@ class World:
             else:
                 self.rs = (tmo.ParallelReaction if st['kind'] == 'parallel' else tmo.SeriesReaction)(rx)
             self.rs_rec = st
+            return
+        if op == 'set_Hf':
+            self.th.chemicals.tuple[a['i'] - 1].Hf = float(a['v'])
+            self.th.chemicals.refresh_constants()
             return
         if op == 'dH':
             v = self.rs.dH if self.rs_rec['kind'] == 'single' else self.rs[a['j'] - 1].dH
